@@ -986,3 +986,81 @@ def r06_1_flags(ctx: Ctx, rule: str = "R06.1") -> None:
             )
     if n == 0:
         raise AnalysisError("Processor chain pruning not found")
+
+
+# ------------------------------------------------------------------ R14.9 / R14.10 base-engine plumbing
+
+
+def r14_9_engine_plumbing(ctx: Ctx, rule: str = "R14.9") -> None:
+    run, m = ctx.run, ctx.m
+    run.rule(
+        rule,
+        "base-engine plumbing: append_unary/append_binary hand the validated operation's _finish_apply the operands "
+        "unchanged; engines compare and hash by identity; node reapply() returns self only for identical operands and "
+        "otherwise re-applies with validation; MarkerRelation.reapply copies only when target or payload differ",
+        expected_min=8,
+    )
+    for name, n_ops in (("append_unary", 1), ("append_binary", 2)):
+        f = m.func(ENGINE, f"Engine.{name}")
+        ps = [q for q in f.params if q != "self"]
+        rets = [p.value for p in ctx.paths(f) if p.outcome == "return"]
+        ok = len(rets) == 1 and isinstance(rets[0], ast.Call) and src(rets[0].func) == f"{ps[0]}._finish_apply" and [src(a) for a in rets[0].args] == ps[1 : 1 + n_ops]
+        if ok:
+            run.ok(rule, f"Engine.{name}")
+        else:
+            run.fail(rule, f"Engine.{name}", f"the base Engine.{name} must return {ps[0]}._finish_apply({', '.join(ps[1:1 + n_ops])})", fi=f)
+    gce = ctx.cls(ENGINE, "GenericConcreteEngine")
+    eqf, hf = gce.methods.get("__eq__"), gce.methods.get("__hash__")
+    other = [q for q in eqf.params if q != "self"][0] if eqf else "other"
+    if eqf and [src(p.value) for p in ctx.paths(eqf)] in ([f"self is {other}"], [f"{other} is self"]):
+        run.ok(rule, "GenericConcreteEngine.__eq__")
+    else:
+        run.fail(rule, "GenericConcreteEngine.__eq__", "engines must compare by identity (two engines with equal fields are still different engines; transfers and preferred-engine logic rely on it)", fi=eqf or gce.methods.get("__str__"))
+    if hf and [src(p.value) for p in ctx.paths(hf)] == ["id(self)"]:
+        run.ok(rule, "GenericConcreteEngine.__hash__")
+    else:
+        run.fail(rule, "GenericConcreteEngine.__hash__", "engines must hash by identity", fi=hf or gce.methods.get("__str__"))
+    if gce.dataclass_kwargs is not None and gce.dataclass_kwargs.get("eq", True) is not False:
+        run.fail(rule, "GenericConcreteEngine:eq=False", "GenericConcreteEngine's dataclass would generate a field-wise __eq__", file=gce.module.path, line=gce.node.lineno, func="GenericConcreteEngine")
+    else:
+        run.ok(rule, "GenericConcreteEngine:eq=False")
+    for sub in m.subclasses(gce, strict=True):
+        inst = f"{sub.module.rel}:{sub.name}:eq"
+        bad = "__eq__" in sub.methods or "__hash__" in sub.methods or (sub.dataclass_kwargs is not None and sub.dataclass_kwargs.get("eq", True) is not False)
+        if bad:
+            run.fail(rule, inst, f"engine class {sub.name} redefines equality/hash (or is a dataclass without eq=False)", file=sub.module.path, line=sub.node.lineno, func=sub.name)
+        else:
+            run.ok(rule, inst)
+    for cname, ops in (("UnaryOperationRelation", ["target"]), ("BinaryOperationRelation", ["lhs", "rhs"])):
+        c = ctx.cls(OPREL, cname)
+        f = c.methods.get("reapply")
+        if f is None:
+            continue
+        for i, p in enumerate(ctx.paths(f)):
+            v = p.value
+            facts = path_facts(p)
+            inst = f"{cname}.reapply:path{i}"
+            if src(v) == "self":
+                ok = all(has_fact(facts, "IS", tuple(sorted((o, f"self.{o}"))), True) for o in ops)
+                if ok:
+                    run.ok(rule, inst)
+                else:
+                    run.fail(rule, inst, f"{cname}.reapply returns self although an operand may differ", fi=f, node=p.node)
+            elif isinstance(v, ast.Call) and src(v.func) == "self.operation.apply" and [src(a) for a in v.args] == ops:
+                run.ok(rule, inst)
+            else:
+                run.fail(rule, inst, f"{cname}.reapply returns `{src(v)}` instead of self.operation.apply({', '.join(ops)})", fi=f, node=p.node)
+    mr = m.func(MARKER, "MarkerRelation.reapply")
+    for i, p in enumerate(ctx.paths(mr)):
+        v = p.value
+        facts = path_facts(p)
+        inst = f"MarkerRelation.reapply:path{i}"
+        if src(v) == "self":
+            if has_fact(facts, "IS", ("self.target", "target"), True) and has_fact(facts, "IS", ("payload", "self.payload"), True):
+                run.ok(rule, inst)
+            else:
+                run.fail(rule, inst, "MarkerRelation.reapply returns self although the target or the payload differs (a payload handed to reapply would be lost)", fi=mr, node=p.node, details=describe(p))
+        elif isinstance(v, ast.Call) and (dotted(v.func) or "").endswith("replace") and src(v.args[0]) == "self" and src(kw(v, "target")) == "target" and src(kw(v, "payload")) == "payload":
+            run.ok(rule, inst)
+        else:
+            run.fail(rule, inst, f"MarkerRelation.reapply returns `{src(v)}`", fi=mr, node=p.node)
